@@ -389,6 +389,11 @@ func cmdRun(args []string) int {
 					fmt.Fprintln(os.Stderr, "PROBLEM", en, r.Status, r.Msg)
 				}
 			}
+			if *verbose && os.Getenv("GOSMT_DEBUG") != "" && len(r.Observed) > 0 && rep.Paths > 0 && len(rep.Samples) < 2 {
+				for _, o := range r.Observed {
+					fmt.Fprintln(os.Stderr, "OBSERVED", o)
+				}
+			}
 			if len(rep.Samples) < 5 && r.Status == "ok" && r.Sample != "" {
 				rep.Samples = append(rep.Samples, r.Sample)
 			}
